@@ -9,6 +9,8 @@ operations (opcode, key components, value kind, targets are solver-chosen finite
   nest   what DirectoryResourcePopulator does on a name conflict: `M.handles.maps.insert(0, {})` on the
          map holding a handle, then assign a fresh handle to the same path (the old one is shadowed)
   clear  `M.clear()` on the root or on any reachable sub-map
+  (reinsert=True) a set may also store again an object that was stored earlier in the history and is stored
+         nowhere now (displaced by a later assignment or dropped by clear); its whole subtree comes back with it
 
 reference model: a tree  name -> ('h', handle) | Node ; Node.obj is the real map when the harness
 created it and None for maps desper created implicitly for intermediate key parts.
@@ -229,14 +231,26 @@ def oracle(sp, m, root, alphabet, depth, clauses, when):
                      '%s: node at %r has key %r' % (when, show(comps), node.key))
 
 
+def stored_in(holder, obj):
+    """is obj stored directly in map `holder` (its `maps` or any layer of its `handles`)?"""
+    if not isinstance(holder, ResourceMap):
+        return False
+    return (any(x is obj for x in holder.maps.values())
+            or any(x is obj for layer in holder.handles.maps for x in layer.values()))
+
+
 def h_tree(sp, L=2, alphabet=('a', 'b', ''), depth=3, values=(0, 1, 2, 3), ops=('set', 'clear', 'nest'),
-           via=False, clauses=ALL_CLAUSES):
+           via=False, clauses=ALL_CLAUSES, reinsert=False):
     alphabet = tuple(alphabet)
     clauses = tuple(clauses)
     ops = list(ops)
     m = ResourceMap()
     root = Node(m)
     cx = Ctx()
+    # reinsert=True: objects that were stored earlier in this history and are stored nowhere now (displaced by
+    # a later assignment, or dropped by clear()); a set op may store one of them again.  An object is never
+    # stored at two places at once (outside the claim).  Entries: TokHandle | Node with .obj set.
+    pool = []
     keys = all_keys(alphabet, depth)
     for step in range(L):
         when = 'step %d' % step
@@ -244,15 +258,41 @@ def h_tree(sp, L=2, alphabet=('a', 'b', ''), depth=3, values=(0, 1, 2, 3), ops=(
         try:
             if op == 'set':
                 comps = sp.pick(keys, 'key%d' % step)
-                kind = sp.pick(list(values), 'val%d' % step)
+                options = [('new', k) for k in values]
+                if reinsert:
+                    options += [('re', i) for i in range(len(pool))]
+                how, kind = sp.pick(options, 'val%d' % step)
                 j = 0
                 if via and len(comps) > 1:
                     # resolve the first j components through existing maps, assign on that sub-map
                     splits = [0] + [i for i in range(1, len(comps))
                                     if isinstance(model_lookup(root, comps[:i]), Node)]
                     j = sp.pick(splits, 'via%d' % step)
-                value, mval, desc = make_value(sp, kind, cx)
+                if how == 'new':
+                    value, mval, desc = make_value(sp, kind, cx)
+                else:
+                    mval = pool.pop(kind)
+                    value = mval if isinstance(mval, TokHandle) else mval.obj
+                    kind = None
+                    desc = 'the displaced %s (last stored under name %r)' % (
+                        repr(mval) if isinstance(mval, TokHandle) else 'map with names %r' % sorted(mval.kids),
+                        value.key)
+                    sp.cover('reinsert')
+                    former = real_walk(m, comps[:-1])
+                    if former is not MISSING and value.parent is former and value.key != comps[-1]:
+                        sp.cover('reinsert-same-map-other-name')
+                        if isinstance(mval, Node):
+                            sp.cover('reinsert-map-same-map-other-name')
                 old = model_lookup(root, comps)
+                # what this assignment displaces: a handle turned into an intermediate map, or the old value
+                displaced = []
+                for i in range(1, len(comps)):
+                    v = model_lookup(root, comps[:i])
+                    if isinstance(v, TokHandle):
+                        displaced.append((v, v, real_walk(m, comps[:i - 1])))
+                if old is not MISSING:
+                    real_old = old if isinstance(old, TokHandle) else (old.obj or real_walk(m, comps))
+                    displaced.append((old, real_old, real_walk(m, comps[:-1])))
                 # does the assignment or an intermediate replace a handle / a map of the other kind?
                 for i in range(1, len(comps)):
                     if isinstance(model_lookup(root, comps[:i]), TokHandle):
@@ -273,6 +313,13 @@ def h_tree(sp, L=2, alphabet=('a', 'b', ''), depth=3, values=(0, 1, 2, 3), ops=(
                                           show(comps[j:]), desc))
                 target[show(comps[j:])] = value
                 model_set(root, comps, mval)
+                for mv, real_obj, holder in displaced:
+                    # eligible for re-insertion only if really stored nowhere (a handle that was visible from a
+                    # lower layer stays stored there when a new handle shadows it)
+                    if reinsert and isinstance(real_obj, (ResourceMap, Handle)) and not stored_in(holder, real_obj):
+                        if isinstance(mv, Node):
+                            mv.obj = real_obj
+                        pool.append(mv)
                 if kind == 3:
                     sp.cover('layered-value')
             elif op == 'nest':
@@ -314,6 +361,17 @@ def h_tree(sp, L=2, alphabet=('a', 'b', ''), depth=3, values=(0, 1, 2, 3), ops=(
                     sp.cover('clear-nonempty')
                 if comps:
                     sp.cover('clear-submap')
+                if reinsert:
+                    for k in sorted(node.kids):
+                        mv = node.kids[k]
+                        if isinstance(mv, TokHandle):
+                            real_obj = mv
+                        else:
+                            real_obj = next((kid for kk, kid, what in kids if kk == k and what == 'sub-map'), None)
+                        if real_obj is not None:
+                            if isinstance(mv, Node):
+                                mv.obj = real_obj
+                            pool.append(mv)
                 node.kids = {}
                 if 'clear' in clauses:
                     sp.check(len(target.maps) == 0 and len(target.handles) == 0, 'clear-leaves-nothing',
@@ -339,7 +397,7 @@ def h_tree(sp, L=2, alphabet=('a', 'b', ''), depth=3, values=(0, 1, 2, 3), ops=(
 
 _COVERS = ['handle-read', 'deep-handle-read', 'implicit-map', 'intermediate-over-handle', 'map-over-handle',
            'handle-over-map', 'subtree-replaced', 'layered-value', 'nest', 'clear-nonempty', 'clear-submap',
-           'set-via-submap', 'clear-with-shadowed-handle']
+           'set-via-submap', 'clear-with-shadowed-handle', 'reinsert', 'reinsert-same-map-other-name']
 
 _REQ = ['handle-read', 'deep-handle-read', 'map-over-handle', 'handle-over-map', 'layered-value']
 
@@ -360,6 +418,9 @@ HARNESSES = {
                         required=['layered-value', 'clear-nonempty', 'clear-with-shadowed-handle']),
 }
 
+_REINS_REQ = ['handle-read', 'deep-handle-read', 'map-over-handle', 'handle-over-map', 'implicit-map', 'reinsert',
+              'reinsert-same-map-other-name', 'reinsert-map-same-map-other-name', 'clear-nonempty']
+
 _SMALL = dict(L=2, alphabet=['a', 'b'], depth=2)
 TIERS = {
     'quick': [
@@ -367,6 +428,8 @@ TIERS = {
         ('focus-clear', dict(_SMALL, clauses=['clear'])),
         ('focus', dict(_SMALL, clauses=['lookup'], ops=['set', 'nest'])),
         ('tree', dict(L=2, alphabet=['a', 'b', ''], depth=3)),
+        ('tree', dict(L=3, alphabet=['a', 'b'], depth=2, values=[0, 1, 2], ops=['set', 'clear'], reinsert=True),
+         {'required': _REINS_REQ}),
     ],
     'thorough': [
         ('focus', dict(_SMALL, clauses=['backlink'])),
@@ -375,6 +438,9 @@ TIERS = {
         ('via', dict(L=2, alphabet=['a', 'b', ''], depth=3, via=True)),
         ('tree', dict(L=3, alphabet=['a', ''], depth=3)),
         ('tree', dict(L=3, alphabet=['a', 'b', ''], depth=2)),
+        ('tree', dict(L=3, alphabet=['a', 'b', ''], depth=2, reinsert=True), {'required': _REINS_REQ + ['nest']}),
+        ('via', dict(L=4, alphabet=['a', 'b'], depth=2, values=[0, 2], ops=['set'], via=True, reinsert=True),
+         {'required': _REINS_REQ[:-1] + ['set-via-submap']}),
         ('tree', dict(L=3, alphabet=['a', 'b', ''], depth=3, values=[0, 3])),
         ('via', dict(L=4, alphabet=['a'], depth=2, via=True)),
     ],
@@ -395,13 +461,18 @@ RULE = ('one evaluation = one feasible path of the decision tree (distinct opera
 BOUNDS = {
     'quick': "focus: names a,b, keys of 1-2 components, 2 ops; tree: names a,b,'' (empty component), keys of 1-3 "
              "components, values {handle, empty map, map{a: handle, b: map}, map with two-layer handles}, "
-             "ops {set, nest, clear of root or any reachable sub-map}, all histories of 2 ops",
+             "ops {set, nest, clear of root or any reachable sub-map}, all histories of 2 ops; re-insertion: names a,b, "
+             "keys of 1-2 components, values {handle, empty map, pre-populated map, any displaced object}, "
+             "ops {set, clear}, all histories of 3 ops",
     'thorough': "as quick plus: 2 ops with assignment through any reachable sub-map (via); names a,'' depth 3: "
                 "all histories of 3 ops; names a,b,'' depth 2: 3 ops; names a,b,'' depth 3 with values {handle, layered map}: 3 ops; "
-                "name a depth 2 with via: 4 ops",
+                "name a depth 2 with via: 4 ops; re-insertion of displaced objects: names a,b,'' depth 2 all ops: 3 ops; "
+                "names a,b depth 2, values {handle, pre-populated map, displaced}, set with via: 4 ops",
 }
 ASSUMPTIONS = [
-    'every assigned value is a fresh object (the same map/handle stored at two places is outside the claim)',
+    'every assigned value is a fresh object, or (reinsert entries) an object stored earlier in the history that is '
+    'stored nowhere when it is assigned again: displaced by a later assignment or dropped by clear(); an object is '
+    'never stored at two places at once (outside the claim)',
     'layered handles are produced the way DirectoryResourcePopulator does it: handles.maps.insert(0, {}) on the '
     'public ChainMap, then an ordinary assignment',
     '"detaches its former direct children": every node stored directly in the map when clear() is called - '
